@@ -103,6 +103,32 @@ def deep_nesting(ctx, fl):
             ctx.violation('corr:verify:deep', 'verifier model and implementation disagree on a deep chain: impl %s model %s' % (o[:20], m), rep, kind='model-impl-disagreement')
 
 
+def known_limits(ctx, fl):
+    """The two places where the soundness theorem needs a hypothesis that the C code does not enforce; each is replayed
+    (nested alignment: on the implementation; > 2 GiB: by the kernel-checked witness) and reported under its own key."""
+    S = {'structs': {}, 'struct_order': [], 'unions': [], 'root': 'T0',
+         'tables': [{'name': 'T0', 'fields': [{'name': 'n', 'kind': 'nested_table', 'type': 'T1', 'required': False}]},
+                    {'name': 'T1', 'fields': [{'name': 'v', 'kind': 'vec_scalar', 'type': 'double', 'required': False}]}]}
+    res, err = build_schema_harness(ctx, S, 'nal', fl)
+    if res is None: raise lib.CheckError('nested alignment schema rejected: ' + err)
+    exe, dc = res
+    w = bytes([12,0,0,0, 6,0,8,0, 4,0,0,0, 8,0,0,0, 8,0,0,0, 0,0,0,0, 32,0,0,0, 12,0,0,0, 6,0,8,0, 4,0,0,0, 8,0,0,0, 4,0,0,0, 1,0,0,0] + [0] * 8)
+    line = 'vw T0 p 0 ' + w.hex()
+    out = lib.run_harness_resilient(lib.Harness(exe), [line], timeout=60)[0]
+    rc2, o2, e2 = lib.sh2([exe], input=line + '\n', env={'ASAN_OPTIONS': 'detect_leaks=0'}, timeout=60)
+    m = ctx.run_model('verifier', ['schema nal %s' % dc['desc'], 'verify nal T/0 p 0 ' + w.hex(), 'walk nal T/0 p 0 ' + w.hex()])
+    ctx.count(line, klass='nested_alignment_witness')
+    if o2.startswith('V 0') and (m[2] != 'OK' or 'misaligned' in e2):
+        ctx.violation('nested-alignment', 'verifier accepts a nested table buffer that starts at a 4- but not 8-aligned address; its [double] vector is then read '
+                      'misaligned (nested buffers are only checked relative to their own start): model walk %s; %s' % (m[2], ' '.join(e2.split('\n')[:1])[:160]),
+                      {'schema_fbs': c01gen.render_fbs(S), 'harness_line': line, 'impl': o2[:100], 'model_walk': m[2], 'coq_witness': 'C01_nested_alignment_refuted'})
+    if any(t['theorem'] == 'C01_size_bound_refuted' for t in ctx.theorems):
+        ctx.violation('size-bound-2gib', 'soundness needs blen <= 2^31+3: for larger buffers vbase = table - soffset wraps in 32 bits while the reader uses pointer arithmetic '
+                      '(kernel-checked witness C01_size_bound_refuted: 2^31+4 byte buffer accepted, reader reads at offset 2^32)',
+                      {'coq_witness': 'Properties_C01.C01_size_bound_refuted', 'bytes': 'all 0 except b[0]=8,b[2]=1; b[0x10000]=6,b[0x10002]=8,b[0x10004]=4; b[0x10008]=8; b[0x1000C..F]=F4 FF FE 7F; b[2^31+3]=0x80',
+                       'schema': '[[FTable 1 @0];[FScalar 4 4 @0]] RTable 0 Plain addr 0'})
+
+
 def roots_of(S):
     r = []
     for i, t in enumerate(S['tables']): r.append((t['name'], 'T/%d' % i))
@@ -134,6 +160,7 @@ def run(ctx):
         schemas.append(('rn%d' % i, c01gen.gen_schema(rng, nstructs=rng.randint(0, 3), ntables=rng.randint(1, 4), nunions=rng.randint(0, 2))))
 
     deep_nesting(ctx, fl)
+    known_limits(ctx, fl)
     desc_mismatch = []
     for name, S in schemas:
         res, err = build_schema_harness(ctx, S, name, fl)
